@@ -12,6 +12,13 @@ Streams
             lines, ordinary comments, blank lines, statements with and without inline comments, random marker
             characters) -> list(FortranReader) vs Lean `readAll` (exact, error kinds included): the reader's
             block modes (`reading_predoc`, `reading_predoc_alt`, `reading_alt`, `prevdoc`) walked directly.
+            Also statements with character literals that hold comment look-alikes (on one line, or continued inside
+            the literal with the other quote character in an earlier literal), and the same runs with a part of the
+            lines moved into an include file -> Lean `IncMarks.readFSM` (the nested reader's markers as the
+            regenerated table `Gen.includeMarkSrc` says).
+  inquote : "is the statement collected so far inside a character literal" - every string over {', ", a} up to
+            length 8 through `_contains_unterminated_string` (when the tree has a function of that name) and up
+            to length 6 through the reader itself (continuation line `&!! probe`) vs Lean `unterminated`.
   program : generated programs (unique tracer words per entity comment x doc styles - the four pure ones and
             the documented mixtures inside one comment: a `!>` block continued with `!!` lines, several
             consecutive preceding blocks (pre / pre-alt), several consecutive following blocks (doc lines /
@@ -23,6 +30,11 @@ Streams
             comments written in the wide-indented style (`!!    text`) or starting with an indented code block, a
             first body line `Word: text` after the blank line that ends a metadata header; the project is built
             with the default `display` or with private entities displayed.
+            Declarations with character-literal initial values whose text holds `!` + any of the four markers /
+            plain `!` + foreign tracer words, the other quote character, doubled quotes, `;` `,` `::` `=>`, on one
+            line or continued inside a literal / between literals (no word of a literal is documentation);
+            runs of a scoping unit's text moved into include files (nested too; `include` is textual: the
+            entities and their comments are the same, whatever marker style they are written in).
             Entities are found on two routes: the file's registration list (creation order) and an independent
             walk over the entity tree (what the pages show); a spy on FortranBase.markdown tells which objects
             were converted, and in which order.
@@ -464,6 +476,45 @@ class ProgGen:
         text = f"{self.kw(ty)}{attrs} :: " + ", ".join(decls)
         return Node("entity", text, names, self.maybe_comment(names))
 
+    def literal_decl(self):
+        """A character declaration whose initial value is a concatenation of character literals.  The literals
+        hold what looks like comments - `!` followed by one of the four markers or by nothing, then words (the
+        foreign tracers `t0q<k>`) - the other quote character, doubled quotes, `;`, `,`, `::`, `=>`; the
+        statement may be continued inside a literal.  None of that is a comment: the entity's documentation is
+        its own comment only.  The text is built at render time (the marker characters are chosen there)."""
+        rng = self.rng
+        names = [self.name("v") for _ in range(rng.choice([1, 1, 1, 2]))]
+        inits = []
+        for _ in names:
+            lits = []
+            for _ in range(rng.choice([1, 1, 2, 2, 3])):
+                q = rng.choice("'\"")
+                atoms = []
+                for _ in range(rng.randint(1, 4)):
+                    r = rng.random()
+                    if r < 0.35:
+                        atoms.append(("w", rng.choice(["say", "hello", "t0q1", "t0q2 t0q3", "x"])))
+                    elif r < 0.65:
+                        atoms.append(("m", rng.choice([0, 0, 1, 2, 3, None]), rng.choice(["t0q4", "t0q5 t0q6", ""])))
+                    elif r < 0.8:
+                        atoms.append(("o",))          # the other quote character
+                    elif r < 0.87:
+                        atoms.append(("d",))          # the literal's own quote character, doubled
+                    else:
+                        atoms.append(("w", rng.choice([";", ",", " :: ", " => ", "&x", "(", "integer"])))
+                lits.append((q, atoms))
+            if len(lits) > 1 and rng.random() < 0.5:
+                # the mixed-quote shape: an earlier literal holds the quote character the last literal is
+                # delimited with (e.g. 'say "' // "hello ..."), so that counting quote characters says nothing
+                # about where the last literal begins and ends
+                q0 = lits[0][0]
+                lits[0][1].insert(rng.randint(0, len(lits[0][1])), ("o",))
+                lits[-1] = ('"' if q0 == "'" else "'", [a for a in lits[-1][1] if a[0] != "o"] or [("w", "hello")])
+            inits.append(lits)
+        n = Node("entity", "", names, self.maybe_comment(names, p=0.9))
+        n.lit = (rng.choice(["character(len=*), parameter", "character(len=80)", "CHARACTER(len=*), parameter"]), inits)
+        return n
+
     def procedure(self, depth, internal_ok=True):
         rng = self.rng
         name = self.name("s")
@@ -487,7 +538,7 @@ class ProgGen:
             body.append(self.var_decl([res]))
         for _ in range(rng.randint(0, 2)):
             self.filler(body)
-            body.append(self.var_decl())
+            body.append(self.var_decl() if rng.random() < 0.85 else self.literal_decl())
         for _ in range(rng.randint(0, 2)):
             self.filler(body, True)
             body.append(Node("stmt", rng.choice(["x0 = 1", "call ext(1)", "if (x0 > 1) x0 = 2"])))
@@ -622,7 +673,7 @@ class ProgGen:
             body.append(Node("stmt", rng.choice(["private", "public"])))
         spec = []
         for _ in range(rng.randint(0, 3)):
-            spec.append(self.var_decl())
+            spec.append(self.var_decl() if rng.random() < 0.8 else self.literal_decl())
         for _ in range(rng.choice([0, 1, 1, 2, 3])):
             spec.append(self.dtype(top_subs))
         if top_subs and rng.random() < 0.5:
@@ -668,7 +719,7 @@ class ProgGen:
         body = [Node("stmt", "implicit none")]
         for _ in range(rng.randint(0, 3)):
             self.filler(body)
-            body.append(self.var_decl())
+            body.append(self.var_decl() if rng.random() < 0.8 else self.literal_decl())
         body.append(Node("stmt", "x0 = 1"))
         if rng.random() < 0.4:
             body.append(Node("stmt", "contains"))
@@ -728,8 +779,64 @@ def assign_styles(rng, nodes, uniform=None):
             n.style = "following"
 
 
-def render(rng, nodes, marks, layout):
-    """Physical lines + expected {entity name: (words, meta, features)} + per-file expected for strays."""
+def lit_lines(rng, n, marks, ind, layout):
+    """Physical lines of a declaration with character-literal initial values (`ProgGen.literal_decl`): the
+    statement on one line, or continued - inside a literal (`... "text &` / `&more text"`: the `&` pair joins the
+    pieces verbatim) or between two tokens outside the literals."""
+    head, inits = n.lit
+    toks = [(head + " :: ", False)]  # (text, inside a literal after this token?)
+    for vi, (nm, lits) in enumerate(zip(n.names, inits)):
+        toks.append(((", " if vi else "") + nm + " = ", False))
+        for li, (q, atoms) in enumerate(lits):
+            if li:
+                toks.append((" // ", False))
+            other = '"' if q == "'" else "'"
+            toks.append((q, True))
+            for a in atoms:
+                if a[0] == "w":
+                    t = a[1]
+                elif a[0] == "m":
+                    t = "!" + ("" if a[1] is None else marks[a[1]]) + (" " + a[2] if a[2] else "")
+                    layout.add("literal-holds:" + ("plain-comment" if a[1] is None else
+                                                   ["doc", "pre", "alt", "prealt"][a[1]] + "-marker"))
+                elif a[0] == "o":
+                    t = other
+                    layout.add("literal-holds:other-quote")
+                else:
+                    t = q + q
+                    layout.add("literal-holds:doubled-quote")
+                toks.append((t + " ", True))
+            toks[-1] = (toks[-1][0].rstrip(" ") if rng.random() < 0.5 else toks[-1][0], True)
+            toks.append((q, False))
+    cuts = sorted(rng.sample(range(1, len(toks)), min(len(toks) - 1, rng.choice([0, 0, 1, 1, 2, 3]))))
+    inner = [k for k in range(1, len(toks)) if toks[k - 1][1]]  # positions inside a literal
+    if inner and rng.random() < 0.4:
+        cuts = sorted(set(cuts) | {rng.choice(inner[-3:])})
+    out, cur, inside = [], ind, False
+    for k, (t, ins) in enumerate(toks):
+        if k in cuts:
+            if inside:
+                sofar = "".join(x for x, _ in toks[:k])
+                if sofar.count("'") % 2 == 0 and sofar.count('"') % 2 == 0:
+                    layout.add("literal-continued:both-quote-counts-even")
+                out.append(cur + "&")
+                cur = ind + rng.choice(["  ", "     ", ""]) + "&"
+                layout.add("literal-continued-inside")
+            else:
+                out.append(cur + rng.choice([" &", "&"]))
+                cur = ind + "   " + rng.choice(["& ", "", "&"])
+                layout.add("statement-continued-between-literals")
+        cur += t
+        inside = ins
+    out.append(cur)
+    layout.add("declaration-with-character-literals")
+    return out
+
+
+def render(rng, nodes, marks, layout, files=None):
+    """Physical lines + expected {entity name: (words, meta, features)} + per-file expected for strays.
+    `files`: dict that receives the included files (name -> physical lines) when parts of the program are
+    moved into include files; None = no include lines."""
     doc, pre, alt, prealt = marks
     lines = []
     expected = {}
@@ -738,8 +845,10 @@ def render(rng, nodes, marks, layout):
     last_line: dict = {}
     sp_of: dict = {}  # entity name -> the wide separator its comment is written with
 
+    sink = [lines]
+
     def put(line):
-        lines.append(line)
+        sink[-1].append(line)
 
     def emit_plain(ind, text):
         if state["no_plain_comment_next"]:
@@ -795,8 +904,33 @@ def render(rng, nodes, marks, layout):
             else:
                 put(docline(ind, doc, t, sp))
 
-    def walk(nodes, depth, container):
+    def walk(nodes, depth, container, may_include=True):
         ind = "  " * depth
+        ents = [i for i, n in enumerate(nodes) if n.kind == "entity"]
+        if files is not None and may_include and ents and len(files) < 4 and rng.random() < 0.05:
+            # a run of this scoping unit's text (at least one documented-or-not entity with everything that
+            # belongs to it; neighbouring fillers at random) is moved into an include file: INCLUDE is
+            # textual, the entities and their comments are the same
+            a = b = rng.choice(ents)
+            while a > 0 and rng.random() < 0.5:
+                a -= 1
+            while b < len(nodes) - 1 and rng.random() < 0.5:
+                b += 1
+            name = f"inc{len(files) + 1}.inc"
+            files[name] = []
+            walk(nodes[:a], depth, container, False)
+            q = rng.choice("'\"")
+            put(ind + rng.choice(["include", "include", "INCLUDE", "Include"]) + rng.choice([" ", "  "]) + q + name + q)
+            state["no_plain_comment_next"] = False
+            sink.append(files[name])
+            walk(nodes[a:b + 1], depth if rng.random() < 0.7 else 0, container, False)
+            sink.pop()
+            state["no_plain_comment_next"] = False
+            layout.add("include-file")
+            if len(sink) > 1:
+                layout.add("include-file-nested")
+            walk(nodes[b + 1:], depth, container, False)
+            return
         for n in nodes:
             if n.kind == "blank":
                 put(rng.choice(["", "  "]))
@@ -865,9 +999,14 @@ def render(rng, nodes, marks, layout):
                         put(rng.choice(["", ind + "! plain between predoc and statement"])
                             if pre_segs[-1][0] in ("P", "Ppure") else "")
                         layout.add("gap-before-statement")
-                line = ind + n.text
+                stmt = lit_lines(rng, n, marks, ind, layout) if getattr(n, "lit", None) else [ind + n.text]
+                for l in stmt[:-1]:
+                    put(l)
+                line = stmt[-1]
                 inline = False
-                if fol_segs and fol_segs[0][0] == "D" and fol_segs[0][1][0] != "" and \
+                # (no inline comment on the last line of a statement continued over several lines: on a line
+                # that starts inside a continued literal the reader keeps a comment as code - C02's finding)
+                if len(stmt) == 1 and fol_segs and fol_segs[0][0] == "D" and fol_segs[0][1][0] != "" and \
                         (st == "following-inline" or st in ("following-segments", "pre-and-following") and rng.random() < 0.3):
                     t0 = fol_segs[0][1][0]
                     line += rng.choice([" ", "  ", ""]) + "!" + doc + sp + t0
@@ -906,10 +1045,13 @@ def render(rng, nodes, marks, layout):
                     state["no_plain_comment_next"] = False
 
     extended = set()
+    lit_names = set()
 
     def find_extended(nodes):
         for n in nodes:
             if n.kind == "entity":
+                if getattr(n, "lit", None):
+                    lit_names.update(n.names)
                 if getattr(n, "extends", None):
                     extended.add(n.extends)
                 if n.body:
@@ -942,6 +1084,9 @@ def render(rng, nodes, marks, layout):
     mark_inherited(nodes, False)
     for nm, fw in foot_words.items():
         expected[nm][0].extend(fw)  # footnote texts are rendered after everything else, in definition order
+    for nm in expected:
+        if nm in lit_names:
+            expected[nm][2].add("declaration-with-character-literals")
     return lines, expected
 
 
@@ -1091,7 +1236,8 @@ def str_meta(it):
     return {key: getattr(m, key) for key in STR_META if getattr(m, key, None) is not None}
 
 
-def observe(ford, d: Path, lines, marks, A, captured, skip_attrs=("external_url",), display=None, inherited=()):
+def observe(ford, d: Path, lines, marks, A, captured, skip_attrs=("external_url",), display=None, inherited=(),
+            files=None):
     """Real code on one generated file.  Returns dict with per-entity observations or an error.
 
     Entities are found on two independent routes: the file's registration list `_to_be_markdowned` (creation
@@ -1099,10 +1245,12 @@ def observe(ford, d: Path, lines, marks, A, captured, skip_attrs=("external_url"
     were converted, and in which order, is observed by a spy on `FortranBase.markdown`."""
     from bs4 import BeautifulSoup
 
-    for old in d.glob("*.f90"):
+    for old in list(d.glob("*.f90")) + list(d.glob("*.inc")):
         old.unlink()
     f = d / "c.f90"
     f.write_text("".join(l + "\n" for l in lines))
+    for nm, ls in (files or {}).items():
+        (d / nm).write_text("".join(l + "\n" for l in ls))
     import ford.sourceform as sf
 
     handed_meta = {}  # id(entity) -> the docstring as it was handed to read_metadata (last call)
@@ -1522,6 +1670,61 @@ def impl_read(path, marks):
         return ["err", type(e).__name__ + ":" + str(e)[:60]]
 
 
+def reads_as_code(path, s):
+    """Is the reader inside a character literal after the text `x<s>`?  Asked of the reader itself: the statement is
+    continued, and the continuation line is `&!! probe` - documentation exactly when the reader is not inside
+    a literal."""
+    from ford.reader import FortranReader
+
+    path.write_text("x" + s + " &\n&!! probe\ny = 1\n")
+    try:
+        with common.quiet():
+            items = list(FortranReader(str(path), *DEFAULT_MARKS))
+    except Exception as e:  # noqa
+        return "err:" + type(e).__name__
+    return "0" if "!! probe" in items else "1"
+
+
+def inquote_stream(ford, drv, rng, tier, rep, hist):
+    """The reader's test "is the statement collected so far inside a character literal" (it decides whether a
+    `!` + marker on the next physical line is looked for at all) vs Lean `unterminated`: EVERY string over
+    {', ", a} up to length 8 (quick; 9 thorough) through the function that `FortranReader.__next__` calls, every
+    such string up to length 6 through the reader itself (continuation line `&!! probe`), plus random longer ones."""
+    import itertools
+    import ford.reader as R
+
+    fn = getattr(R, "_contains_unterminated_string", None)
+    maxlen = 8 if tier == "quick" else 9
+    strs = ["".join(t) for k in range(maxlen + 1) for t in itertools.product("'\"a", repeat=k)]
+    strs += ["".join(rng.choice("'\"ab !") for _ in range(rng.randint(10, 30))) for _ in range(2000)]
+    reqs, exp, how = [], [], []
+    if callable(fn):
+        for t in strs:
+            try:
+                e = "1" if fn(t) else "0"
+            except Exception as x:  # noqa
+                e = "err:" + type(x).__name__
+            reqs.append(["unterm", t]); exp.append(e); how.append("function")
+    else:
+        hist["inquote:function-not-found-reader-only"] = 1
+    with common.scratch_dir() as d:
+        f = d / "q.f90"
+        short = [t for t in strs if len(t) <= (6 if callable(fn) else 7) and "!" not in t]
+        for t in short:
+            reqs.append(["unterm", "x" + t + " "]); exp.append(reads_as_code(f, t)); how.append("reader")
+    got = drv.batch(reqs)
+    bad = 0
+    for r, e, g, h in zip(reqs, exp, got, how):
+        hist["inquote:" + h + ":" + e] = hist.get("inquote:" + h + ":" + e, 0) + 1
+        if ["ok", e] != g:
+            bad += 1
+            if bad <= 5:
+                rep.tie_broken(f"correspondence micro/inquote ({h}): is the reader inside a character literal after {r[1]!r}? "
+                               f"model {g} vs implementation {e}",
+                               {"stream": "micro/inquote", "request": r, "impl": e, "model": g})
+    return len(reqs), bad
+
+
 def docblock_stream(ford, drv, rng, n, rep, hist):
     """Mode switching of the reader: short runs of comment lines in EVERY marker form, in every order (also the
     combinations nobody documents), between statements -> list(FortranReader) vs Lean `readAll`, exact.  What
@@ -1551,9 +1754,24 @@ def docblock_stream(ford, drv, rng, n, rep, hist):
                 elif r < 0.9:
                     lines.append(ind + rng.choice(["x = 1", "integer :: v", "call s(1); y = 2", "end"]))
                     shape.append("s")
-                elif r < 0.96:
+                elif r < 0.93:
                     lines.append(ind + "x = 1 " + rng.choice(["!" + doc + " " + w, "! " + w, "!" + doc]))
                     shape.append("i")
+                elif r < 0.96:
+                    # character literals that hold comment look-alikes, on one line or continued inside the
+                    # literal (with the other quote character in an earlier literal of the statement)
+                    q = rng.choice("'\"")
+                    o = '"' if q == "'" else "'"
+                    mk = "!" + rng.choice([doc, pre, alt, prealt, ""])
+                    first = rng.choice([f"c = {q}a {mk} {w}{q}", f"c = {o}say {q}{o} // {q}b {mk} {w}{q}",
+                                        f"c = {q}it{q}{q}s {mk}{q} // {o}{q} {w}{o}"])
+                    if rng.random() < 0.5:
+                        lines.append(ind + first)
+                        shape.append("q")
+                    else:
+                        first = first[:-1] + " &"
+                        lines += [ind + first, ind + rng.choice(["&", "  &"]) + rng.choice(["", "z "]) + mk + " " + w + q]
+                        shape.append("Q")
                 elif r < 0.98:
                     lines.append(ind + "x = 1 !" + rng.choice([pre, alt, prealt]) + " " + w)
                     shape.append("e")
@@ -1561,6 +1779,21 @@ def docblock_stream(ford, drv, rng, n, rep, hist):
                     lines += [ind + "x = &", ind + rng.choice(["& 1", "  2"])]
                     shape.append("k")
             lines.append("z = 0")
+            files = {}
+            if rng.random() < 0.25 and len(lines) > 2:
+                # the same run of lines with a part of it moved into an include file: the nested reader must
+                # read it under the same marker configuration
+                a = rng.randrange(0, len(lines) - 1)
+                b = rng.randrange(a + 1, len(lines))
+                cont = [i for i, l in enumerate(lines) if l.rstrip().endswith("&")]
+                if not any((a <= i < b) != (a <= i + 1 < b) for i in cont):
+                    files = {"r.inc": lines[a:b]}
+                    lines = lines[:a] + [rng.choice(["include 'r.inc'", 'INCLUDE "r.inc"', "  include 'r.inc'"])] + lines[b:]
+                    hist["reader:with-include-file"] = hist.get("reader:with-include-file", 0) + 1
+            for old in d.glob("*.inc"):
+                old.unlink()
+            for nm, ls in files.items():
+                (d / nm).write_text("".join(l + "\n" for l in ls))
             f.write_text("".join(l + "\n" for l in lines))
             e = impl_read(f, marks)
             key = "".join(shape)
@@ -1568,14 +1801,18 @@ def docblock_stream(ford, drv, rng, n, rep, hist):
                 if a in "DPAQ" and b in "DPAQcb":
                     hist["reader-switch:" + a + b] = hist.get("reader-switch:" + a + b, 0) + 1
             hist["reader:" + ("ok" if e[0] == "ok" else e[1])] = hist.get("reader:" + ("ok" if e[0] == "ok" else e[1]), 0) + 1
-            reqs.append(["read", *marks, *lines])
+            if files:
+                reqs.append(["c03.readfs", *marks, "1", "r.inc", str(len(files["r.inc"])), *files["r.inc"], *lines])
+            else:
+                reqs.append(["read", *marks, *lines])
             exp.append(e)
     got = drv.batch(reqs)
     bad = 0
     for r, e, g in zip(reqs, exp, got):
         if e != g:
             bad += 1
-            rep.tie_broken(f"correspondence micro/reader: model {g[:8]} vs implementation {e[:8]} on marks {r[1:5]} lines {r[5:]!r}",
+            rep.tie_broken(f"correspondence micro/reader: model {g[:8]} vs implementation {e[:8]} on marks {r[1:5]} "
+                           f"{'include file + ' if r[0] == 'c03.readfs' else ''}lines {r[5:]!r}",
                            {"stream": "micro/reader", "request": r, "impl": e, "model": g})
     return len(reqs), bad
 
@@ -1619,8 +1856,13 @@ def _oracle_words_meta(name, exp, obs):
     return None, None
 
 
-def run_case(ford, drv_reqs, d, lines, marks, A, captured):
-    return observe(ford, d, lines, marks, A, captured)
+def attach_request(flags, marks, lines, files):
+    if not files:
+        return ["c03.attach", flags, *marks, *lines]
+    r = ["c03.attachfs", flags, *marks, str(len(files))]
+    for nm, ls in files.items():
+        r += [nm, str(len(ls)), *ls]
+    return r + list(lines)
 
 
 def program_stream(ford, drv, rng, n, rep, hist, samples, distinct, replay_case=None, flags="-",
@@ -1643,7 +1885,7 @@ def program_stream(ford, drv, rng, n, rep, hist, samples, distinct, replay_case=
                           {k: (v[0], v[1], set(v[2]), list(v[3]) if len(v) > 3 else [])
                            for k, v in replay_case["expected"].items()},
                           tuple(replay_case["marks"]), set(replay_case.get("layout", [])),
-                          replay_case.get("display")))
+                          replay_case.get("display"), replay_case.get("files") or {}))
         else:
             for k in range(n):
                 g = ProgGen(rng)
@@ -1653,26 +1895,27 @@ def program_stream(ford, drv, rng, n, rep, hist, samples, distinct, replay_case=
                     uniform = rng.choice([None, None] + STYLES) if variant else None
                     assign_styles(rng, nodes, uniform)
                     layout = set()
-                    lines, expected = render(rng, nodes, marks, layout)
+                    files: dict = {}
+                    lines, expected = render(rng, nodes, marks, layout, files)
                     if marks != DEFAULT_MARKS:
                         layout.add("alternative-marker-characters")
                     # `display` decides which entities the pages list (private ones are pruned from the
                     # collections by default); the conversion of comments must not depend on it
                     display = DISPLAY_ALL if rng.random() < 0.5 else None
                     layout.add("display:" + ("all" if display else "default"))
-                    cases.append((lines, expected, marks, layout, display))
-        model = drv.batch([["c03.attach", flags, *marks, *lines] for lines, _, marks, _, _ in cases])
+                    cases.append((lines, expected, marks, layout, display, files))
+        model = drv.batch([attach_request(flags, marks, lines, files) for lines, _, marks, _, _, files in cases])
         pipe_reqs, pipe_ctx = [], []
         md_reqs, md_ctx = [], []
         conv_reqs, conv_ctx = [], []
         with common.scratch_dir() as d:
-            for ci, ((lines, expected, marks, layout, display), mo) in enumerate(zip(cases, model)):
+            for ci, ((lines, expected, marks, layout, display, files), mo) in enumerate(zip(cases, model)):
                 inherited = {k for k, v in expected.items() if "public-component-of-extended-type" in v[2]}
-                obs = observe(ford, d, lines, marks, A, captured, skip_attrs, display, inherited)
+                obs = observe(ford, d, lines, marks, A, captured, skip_attrs, display, inherited, files)
                 for f in layout:
                     hist["layout:" + f] = hist.get("layout:" + f, 0) + 1
                 case = {"stream": "program", "lines": lines, "marks": list(marks), "layout": sorted(layout),
-                        "display": display,
+                        "display": display, "files": files,
                         "expected": {k: [v[0], v[1], sorted(v[2]), v[3]] for k, v in expected.items()}}
                 allfeat = set().union(*[v[2] for v in expected.values()]) if expected else set()
                 if "error" in obs:
@@ -1873,6 +2116,9 @@ def run(tier: str, seed: int, replay: str | None = None) -> int:
         ev_r, bad_r = docblock_stream(ford, drv, rng, n_micro, rep, hist)
         ev_micro += ev_r
         bad_micro += bad_r
+        ev_r, bad_r = inquote_stream(ford, drv, rng, tier, rep, hist)
+        ev_micro += ev_r
+        bad_micro += bad_r
     n_cases, n_ent, n_pipe, n_corr, n_orc = program_stream(ford, drv, rng, n_prog, rep, hist, samples, distinct,
                                                            replay_case, flags,
                                                            tuple(table.get("skip_attrs", ["external_url"])))
@@ -1885,7 +2131,9 @@ def run(tier: str, seed: int, replay: str | None = None) -> int:
              "x marker characters x layout gaps "
              "x comment shape (rich body / one-line key: value / one-line word: text / footnotes, reference links, "
              "abbreviations with labels shared between comments / wide-indented / starting with a code block / "
-             "`Word: text` after the header) x type extension, generic bindings, interface blocks with bodies x display; "
+             "`Word: text` after the header) x type extension, generic bindings, interface blocks with bodies x display "
+             "x declarations with character literals holding comment look-alikes (one line / continued inside a literal, "
+             "mixed quote characters) x parts of the text moved into (nested) include files; "
              "counted: distinct (entity, tracer sequence, doc features, file) tuples whose entity has a non-empty doc comment",
         samples=samples,
         traces_validated_against_impl=ev_micro + n_cases + n_pipe,
@@ -1905,6 +2153,12 @@ def run(tier: str, seed: int, replay: str | None = None) -> int:
         "(reference links, footnotes, abbreviations) in the forms the generator emits: definitions on their own lines "
         "at the end of a comment, uses as whole blank-separated words of paragraph lines",
         "the MetaMarkdown instance is built with an absolute base_url (the output directory), as ford's command line does",
+        "the lexical side of the reader (continuation lines, `;`, literals) and the queue mechanics of include() are "
+        "C02's models (Reader.lean, Include.lean with the configuration last regenerated by translate/c02.py); C03 adds "
+        "the marker hand-over to the nested reader and the consequences for documentation",
+        "a statement continued over several lines carries no inline comment on its last line (on a line that starts "
+        "inside a continued literal the reader keeps a trailing comment as code: C02's known finding); include files "
+        "hold whole entities with their comments, never a part of a comment block or of a continued statement",
         "one source file per project: conversion order across files, type extension across modules of different "
         "files and external entities (`external_url`, the only skip attribute of markdownable_items) are not generated",
         "the entity-tree walk uses the harness's own list of child collections (CHILD_ATTRS); the HTML pages "
